@@ -139,7 +139,10 @@ class C14(C01):
             progs.append(ops + [("finish",)])
             metas.append(dict(k="mix"))
         self.progs = progs
-        lines, outs = wprog.with_tables(self.exes["debug"], [dict(ops=o) for o in progs])
+        # every third program runs over a sink that accepts each write only partially (never fails): the copied bytes must
+        # arrive complete and in order all the same
+        plans = [bytes(r.choice([1, 2, 3, 7, 40, 255]) for _ in range(r.randrange(20, 600))) if j % 3 == 1 else None for j in range(len(progs))]
+        lines, outs = wprog.with_tables(self.exes["debug"], [dict(ops=o, plan=pl) for o, pl in zip(progs, plans)])
         # the crate's raw view of every destination
         dests = []
         for o in outs:
